@@ -149,6 +149,9 @@ class Run(object):
                 self.step({"op": "req", "status": st.RESUMING}, _ctl=True)
             elif kind == "restore":
                 self.step({"op": "restore"}, _ctl=True)
+            elif kind == "rerun" and s == st.FAILED:
+                # a rerun requested as soon as the workflow has failed, even with stale actions in flight
+                self.step({"op": "rerun", "tasks": None}, _ctl=True)
 
     def at_rest(self):
         return self.d.status() in provider.TERMINAL and self.d.quiescent()
